@@ -566,16 +566,19 @@ func (w *run) settle() bool {
 		}
 		if d <= 0 && !pending && !moved && !spinSleeping() {
 			quiet++
+			if quiet >= 6 {
+				// nothing has happened for six rounds and nothing is pending now:
+				// the caller evaluates its oracles at this very point
+				return true
+			}
 		} else {
 			quiet = 0
 		}
 		time.Sleep(d + step)
 	}
 	synctest.Wait()
-	if quiet < 6 {
-		w.e.Probe("settle_gave_up")
-	}
-	return quiet >= 6
+	w.e.Probe("settle_gave_up")
+	return false
 }
 
 var stackBuf = make([]byte, 1<<20)
@@ -1334,6 +1337,25 @@ func (w *run) checkGoAwayQuiescent() {
 			}
 		}
 		if lim == nil || ref.id <= lim.last {
+			continue
+		}
+		// the retry may legitimately be waiting for a stream slot on the new connection
+		waitingForSlot := false
+		for _, pc2 := range w.liveConns() {
+			if v2 := w.views[pc2.idx]; pc2.idx != ref.conn && v2.mcs >= 0 {
+				open := 0
+				for _, x := range v2.streams {
+					if x.openForClient() {
+						open++
+					}
+				}
+				if int64(open) >= v2.mcs || len(v2.mcsPending) > 0 {
+					waitingForSlot = true
+				}
+			}
+		}
+		if waitingForSlot {
+			e.Probe("retry_waits_for_stream_slot")
 			continue
 		}
 		e.Violate("stream_above_goaway_id_still_open", "rpc %d is blocked in %s on conn %d stream %d at a quiescent point after GOAWAY(last=%d) was delivered: the attempt was neither failed as unprocessed nor retried", id, st.inCall, ref.conn, ref.id, lim.last)
